@@ -523,6 +523,14 @@ func main() {
 			rn.streamErrDec(g)
 		case "bigint":
 			rn.streamBigInt(g)
+		case "alias":
+			rn.streamAlias(g, opList)
+		case "strings":
+			rn.streamStrings(g)
+		case "total":
+			rn.streamTotal(g)
+		case "text":
+			rn.streamText(g)
 		default:
 			fmt.Fprintf(os.Stderr, "unknown stream %q\n", *stream)
 			os.Exit(2)
